@@ -169,6 +169,56 @@ def rows_of_values(ctx):
                 ctx.violation("operand-changed:2-d ndarray", {"class": cls, "unit": u})
 
 
+def unusual_containers(ctx):
+    """containers and operands that are list / tuple / ndarray *subclasses*: a named tuple as x's container (the result holds
+    the computed values, whatever tuple type carries them), a masked array as k or as x's container (what is masked stays
+    masked, what is not is computed)"""
+    import collections
+
+    import numpy as np
+    from barril.units import Array, FixedArray
+
+    Point = collections.namedtuple("Point", "x y z")
+    base = [1.0, 2.0, 4.0]
+    for cls, mk in (("Array", lambda v: Array(v, "m")), ("FixedArray", lambda v: FixedArray(3, v, "m"))):
+        x = mk(Point(*base))
+        q = x.GetQuantity()
+        for kname, k in (("float", 2.5), ("np.float64", np.float64(0.5)), ("int", 3)):
+            for label, fn, keeps in FORMS:
+                ctx.ev()
+                ctx.nt((cls, "named tuple", kname, label))
+                case = {"class": cls, "container": "named tuple", "k_kind": kname, "form": label}
+                try:
+                    r = fn(x, k)
+                    want = [VALUE_OPS[label](v, k) for v in base]
+                    got = [float(g) for g in r.GetValues()]
+                except Exception as e:
+                    ctx.violation("raised:%s:%s:%s" % (cls, label, kname), dict(case, error="%s: %s" % (type(e).__name__, str(e)[:160])), replay=case)
+                    continue
+                if not isinstance(r, type(x)) or (keeps and r.GetQuantity() != q) or got != [float(w) for w in want]:
+                    ctx.violation("value:%s:%s:%s" % (cls, label, kname), dict(case, got=got, want=[float(w) for w in want], result=repr(r)[:120]), replay=case)
+        mk_masked = lambda: np.ma.masked_array([2.0, 4.0, 8.0], mask=[False, True, False])  # noqa: E731
+        for cont, values in (("list", list(base)), ("tuple", tuple(base)), ("ndarray", np.array(base)), ("masked ndarray", np.ma.masked_array(base, mask=[False, False, True]))):
+            x = mk(values)
+            q = x.GetQuantity()
+            ks = [("masked array", mk_masked())] if cont != "masked ndarray" else [("float", 2.5), ("masked array", mk_masked())]
+            for kname, k in ks:
+                for label, fn, keeps in FORMS:
+                    ctx.ev()
+                    ctx.nt((cls, cont, kname, label))
+                    case = {"class": cls, "container": cont, "k_kind": kname, "form": label}
+                    try:
+                        r = fn(x, k)
+                        want = VALUE_OPS[label](np.ma.masked_array(base, mask=[False, False, True]) if cont == "masked ndarray" else np.array(base), k)
+                        got = r.GetValues()
+                    except Exception as e:
+                        ctx.violation("raised:%s:%s:%s" % (cls, label, kname), dict(case, error="%s: %s" % (type(e).__name__, str(e)[:160])), replay=case)
+                        continue
+                    ok = isinstance(r, type(x)) and (not keeps or r.GetQuantity() == q) and np.ma.isMaskedArray(got) and np.array_equal(np.ma.getmaskarray(got), np.ma.getmaskarray(want)) and np.ma.allequal(got, want)
+                    if not ok:
+                        ctx.violation("value:%s:%s:%s" % (cls, label, kname), dict(case, got=repr(got)[:160], want=repr(want)[:160]), replay=case)
+
+
 def exponent_families(ctx, r, n_families):
     """One process, quantities that differ *only in one exponent* (u/v, u/v2, u/v3, 1/v, 1/v2, u2/v ...), every
     number form applied to each in turn and again in reverse order: whatever a previous operand left behind
@@ -296,6 +346,7 @@ def run(ctx):
         integer_containers(ctx, ctx.rng("ints"), 6 if ctx.tier == "quick" else 80)
         if ctx.shard == 0:
             rows_of_values(ctx)
+            unusual_containers(ctx)
         exponent_families(ctx, ctx.rng("families"), 12 if ctx.tier == "quick" else 150)
     ctx.inconclusive_if(ctx.counters.get("operands that could not be built", 0) > n_rounds, "barril refused to build %d valid operands" % ctx.counters.get("operands that could not be built", 0))
     ctx.inconclusive_if(probe.COUNTS["Array.__rmul__"] == 0, "Array operators never reached")
